@@ -298,7 +298,10 @@ func (s *st) dynamic(blk *Block) (*code, *code) {
 			}
 		}
 	}
-	if lens[256] == 0 {
+	if lens[256] == 0 && s.opt.Strict {
+		// A block without an end-of-block code can never terminate. compress/flate does not reject it at the
+		// header but decodes its symbols until it runs into something else; the permissive reference does the same,
+		// so that bytes handed out by either kind of inflater count as "produced by a reference inflater".
 		s.fail("no-eob", at)
 	}
 	blk.LitLens = append([]uint8{}, lens[:nlen]...)
